@@ -37,7 +37,8 @@ Init ==
   /\ rv = <<>> /\ status = "run" /\ evals = <<>> /\ seen = {} /\ bad = NoBad /\ steps = 0
 
 Report(st, w, sn, res, b) ==
-  PrintT("X " \o ToJson([p |-> prog, s |-> st, w |-> w, n |-> steps, seen |-> sn, res |-> res, inp |-> input, bad |-> b]))
+  PrintT("X " \o ToJson([p |-> prog, s |-> st, w |-> w, n |-> steps, seen |-> sn, res |-> res, inp |-> input, bad |-> b,
+                          flagged |-> {id \in sn : IsFlagged(prog, id)}]))
 
 Step ==
   /\ status = "run"
